@@ -1,6 +1,7 @@
 package main
 
 import (
+	"strconv"
 	"bytes"
 	stdjson "encoding/json"
 	"fmt"
@@ -270,6 +271,35 @@ func runC17(h *H) {
 	N := 3000
 	if h.Thorough() {
 		N = 60000
+	}
+	// sizes at which a narrowed counter wraps: more than 65536 siblings in one array / object, nesting deeper than 256
+	// and (valid for encoding/json up to 10000) 9000 levels, wide AND deep
+	{
+		var sb strings.Builder
+		sb.WriteString("[")
+		for i := 0; i < 65800; i++ {
+			if i > 0 {
+				sb.WriteString(",")
+			}
+			sb.WriteString(strconv.Itoa(i % 10))
+		}
+		sb.WriteString("]")
+		h.DoRisky("json.tokcheck", hx([]byte(sb.String())))
+		sb.Reset()
+		sb.WriteString("{")
+		for i := 0; i < 65800; i++ {
+			if i > 0 {
+				sb.WriteString(",")
+			}
+			sb.WriteString(`"k":` + strconv.Itoa(i%10))
+		}
+		sb.WriteString("}")
+		h.DoRisky("json.tokcheck", hx([]byte(sb.String())))
+		for _, d := range []int{255, 256, 257, 300, 9000} {
+			h.DoRisky("json.tokcheck", hx([]byte(strings.Repeat("[", d)+"1,2"+strings.Repeat("]", d))))
+			h.DoRisky("json.tokcheck", hx([]byte(strings.Repeat(`{"a":[`, d/2)+"1"+strings.Repeat("]}", d/2))))
+		}
+		h.DoRisky("json.tokcheck", hx([]byte("["+strings.Repeat("[1,2,3,[4]],", 300)+"[]]")))
 	}
 	for i := 0; i < N; i++ {
 		d := h.genJSONNested()
